@@ -15,6 +15,7 @@ Cryptography is symbolic (Model.lean header); `C : Crypto` (the binomial quantil
 `computePriority`) is universally quantified in every theorem.
 -/
 import YouVerif.C01.Proofs
+import YouVerif.C01.ProofsQuorum
 namespace YouVerif.C01.Props
 open YouVerif.C01
 
@@ -77,7 +78,7 @@ theorem declared_sizes_must_be_protocol {C : Crypto} {versions : Nat → Option 
       split at hok
       · cases hok
       · rename_i hthr
-        simp [Checks.current] at hthr
+        simp [current_eq] at hthr
         rcases hne with h1 | h1 | h1
         · exact h1 hthr.1.2
         · exact h1 hthr.1.1
@@ -260,23 +261,39 @@ theorem shipped_quorums :
       quorum true e.2.2.2.2.1 == 1370 && quorum false e.2.2.2.2.2 == 2340) = true := by
   decide
 
-/-- for every committee size below 4096 the float computation of the precommit quorum equals the exact rational
-floor ⌊137·T/200⌋; the certificate quorum equals ⌊117·T/200⌋ except at some multiples of 200 (first: 3400), where
-the float64 nearest to 0.585 being below 0.585 makes it one seat less. Bounded check by kernel evaluation. -/
-theorem quorum_exact_below_4096 :
-    (List.range 4096).all (fun t => quorum true t == 137 * t / 200 &&
-      (quorum false t == 117 * t / 200 || (t % 200 == 0 && quorum false t + 1 == 117 * t / 200))) = true := by
-  decide +kernel
+/-- **quorum_exact.** For EVERY committee size a uint32 can hold, the float64 computation
+`uint32(float64(T) * 0.685)` of `OverThreshold` equals the exact rational floor ⌊0.685·T⌋ = ⌊137·T/200⌋; the certificate
+quorum `uint32(float64(T) * 0.585)` is ⌊0.585·T⌋ or one seat less (the float64 nearest to 0.585 lies below it).
+The proof shows that `roundSig53` is a correct round-to-nearest (ProofsQuorum.lean, ported from the C03 owner's
+`quorum_float_exact`) and is about the mantissas regenerated from the Go constants: another constant breaks it. -/
+theorem quorum_exact (t : Nat) (ht : t < U32) :
+    quorum true t = 137 * t / 200 ∧ quorum false t ≤ 117 * t / 200 ∧ 117 * t / 200 ≤ quorum false t + 1 := by
+  have h1 := quorum685_exact t ht
+  have h2 := quorum585_bounds t ht
+  refine ⟨by omega, by omega, by omega⟩
 
-/-- full statement (not proved; sampled up to 2^64 by the OverThreshold correspondence): the same for every size a
-uint32 can hold -/
-def quorum_exact_statement : Prop :=
-  ∀ t, t < U32 → quorum true t = 137 * t / 200 ∧ quorum false t ≤ 117 * t / 200 ∧ 117 * t / 200 ≤ quorum false t + 1
+/-- "one seat less" does occur: committee size 3400 gives a certificate quorum of 1988, not ⌊0.585·3400⌋ = 1989
+(first such size; the shipped size 4000 gives exactly 2340, see `shipped_quorums`) -/
+theorem cert_quorum_off_by_one : quorum false 3400 = 1988 ∧ 117 * 3400 / 200 = 1989 := by
+  decide
 
-/-- a committee size of 0 or 1 gives quorum 0, every size from 2 to 4095 gives a positive quorum -/
-theorem quorum_zero_only_below_two :
-    quorum true 0 = 0 ∧ quorum true 1 = 0 ∧ (List.range 4094).all (fun t => decide (0 < quorum true (t + 2))) = true := by
-  refine ⟨by decide, by decide, by decide +kernel⟩
+/-- the precommit quorum is 0 exactly for the committee sizes 0 and 1: every size ≥ 2 needs at least one valid vote -/
+theorem quorum_zero_only_below_two (t : Nat) (ht : t < U32) : quorum true t = 0 ↔ t ≤ 1 := by
+  rw [(quorum_exact t ht).1]
+  omega
+
+/-! ## The source still has the shape the model was written against -/
+
+/-- **source_shape_ok.** Every syntactic fact the model relies on holds of the CURRENT Go source (regenerated by the
+go/ast translator go/cmd/c01/gen.go on every run): the four repaired checks — which also define `Checks.current`, the
+configuration all theorems above are about —, the duplicate-signer check, the order of the vote loop (duplicate check,
+sortition check, skip on failure, mark, `count += v.Votes`), the arguments of `VrfVerifySortition` / `VrfVerifyPriority`
+(seed, round index, step, threshold, look-back stake, chamber stake), the seat check `uint32(j) != subUsers` and `j <= 0`,
+the steps and kinds passed to `verifyVotes` (precommit/chamber/0.685, certificate/chamber/0.585), the `commonData` fields,
+the `OverThreshold` gate and its `>=` comparison, the aggregate check and its payload, the certificate-round switch. -/
+theorem source_shape_ok :
+    Gen.sourceFacts.all (·.2) = true ∧ Gen.sourceFacts.length = 18 ∧ Checks.current = ⟨true, true, true, true⟩ :=
+  ⟨by decide, by decide, current_eq⟩
 
 /-! ## The defects that were repaired: each missing check makes the property false (model witnesses;
 the same witnesses were replayed on the real verifier before the repair, see corpus/C01) -/
